@@ -94,6 +94,8 @@ def check_partition(n, tables, what):
 # ---------------------------------------------------------------------------
 def gen_nprocs(rng, ndim, maxP=12, allow3=True, wide=False):
     """A process grid: list of 1..3 extents in 1..4 (1..6 when wide), product <= maxP."""
+    if rng.random() < 0.04 and maxP >= 7:
+        return [rng.randint(7, min(maxP, 13))]          # many processes along one direction
     while True:
         k = rng.choice([1, 2, 2, 2, 2, 3] if (allow3 and ndim >= 3) else [1, 2, 2, 2])
         k = min(k, ndim)
